@@ -19,7 +19,7 @@ EVAL_KEY = "roundtrips_judged"
 DISTINCT_KEY = "roundtrips"
 NSHARDS = {"quick": 8, "thorough": 16}
 FLOORS = {"quick": {"roundtrips_judged": 4000, "corpus_roundtrips": 500, "distinct:slots": 380},
-          "thorough": {"roundtrips_judged": 60000, "corpus_roundtrips": 500, "distinct:slots": 380}}
+          "thorough": {"roundtrips_judged": 40000, "corpus_roundtrips": 500, "distinct:slots": 380}}
 ASSUMPTIONS = ["allowed differences are decided with mf/vocab.py (own schema reader)",
                "documents with keywords unknown to the schema of their object are outside the quantifier (counted)"]
 DOMAIN = gen.DOMAIN + ["documented exclusions are counted, not judged: strings containing the output quote character; strings of "
